@@ -176,9 +176,10 @@ mutual
         :: specMembers rest
 end
 
-def specTy : Ty → Option SLayout
-  | .struct p al ms => some (specStruct p (al.map Int.toNat) (specMembers ms))
-  | .union p al ms => some (specUnion p (al.map Int.toNat) (specMembers ms))
-  | t => let (s, a) := specSizeAlign t; some { size := s, align := a, placed := [] }
+/-- size, alignment and member placements of a whole type -/
+def specTy : Ty → SLayout
+  | .struct p al ms => specStruct p (al.map Int.toNat) (specMembers ms)
+  | .union p al ms => specUnion p (al.map Int.toNat) (specMembers ms)
+  | t => { size := (specSizeAlign t).1, align := (specSizeAlign t).2, placed := [] }
 
 end ChibiVerif.Spec.Layout
